@@ -8,11 +8,15 @@ Trusted glue (parsing / printing only).
       those exactly on the unit circle count; output `M` = the best witness with its response,
       `R` = per reported minimiser `1` when it is refuted by the best witness)
   mg bw  <num> <den> <p0> <dbdrop> <thr> <grid> <rootpoint (0 or 1 entries)>
+  mg frd <samples>      (sampled-data route: complex samples of the response on the frequency grid;
+     output `Z` = 1 when a sample lies exactly on the real axis (phase brackets outside the model), `P` / `G` / `S` =
+     indices of the grid intervals handed to the root finder for phase crossover / gain crossover / stability margin)
 
 lists: `n v…`; complex lists: `n re im …`.
 -/
 import CtrlVerif.Driver.Util
 import CtrlVerif.Model.Margins
+import CtrlVerif.Model.MarginsFrd
 import Mathlib.Algebra.Order.Field.Rat
 import Mathlib.Algebra.Order.Ring.Rat
 
@@ -155,8 +159,19 @@ def handleBw : P String := do
       let gap := if t2 = 0 then 1 else minGap num den t2 grid grid.length
       pure s!"ok inf dc {showRat g} T2 {showRat t2} gap {showRat gap} R {atRoot}"
 
+def showNats (l : List Nat) : String := showListWith toString l
+
+def handleFrd : P String := do
+  let rs ← pList pCx
+  let (z, p) := match frdPhaseBrackets rs with
+    | some l => ("0", l)
+    | none => ("1", [])
+  pure <| "ok Z " ++ z ++ " P " ++ showNats p ++ " G " ++ showNats (frdGainBrackets rs)
+    ++ " S " ++ showNats (frdStabBrackets rs)
+
 def handle (toks : List String) : String :=
   match toks with
+  | "frd" :: rest => runLine handleFrd rest
   | "smc" :: rest => runLine handleSmc rest
   | "smd" :: rest => runLine handleSmd rest
   | "bw" :: rest => runLine handleBw rest
